@@ -1103,6 +1103,8 @@ def prove(oid: str, claim, **info) -> bool:
                     sh.cross_disagree.append(oid)
     rec["time_s"] = round(time.perf_counter() - t0, 4)
     rec["verdict"] = "unsat" if r == z3.unsat else ("sat" if r == z3.sat else "unknown")
+    # exp / log / pow were uninterpreted on this path (sound but incomplete axioms): a sat answer needs the concrete replay to count
+    rec["abstracted"] = bool(run.axioms_seen)
     if (run.shared.dump_smt and r != z3.unsat) or run.shared.dump_all:
         rec["smt2"] = _dump(run, z3.Not(t))
     run.obligations.append(rec)
